@@ -163,7 +163,7 @@ func cmdWorker(byID map[string]Engine, args []string) int {
 				out.Flush()
 				os.Exit(3)
 			})
-			rp := BuildReplay(e, plan, v, *seed, i)
+			rp := BuildReplay(e, plan, v, *seed, i, *tier, *w, *W)
 			wd2.Stop()
 			wmu.Lock()
 			enc.Encode(workerMsg{Type: "violation", Replay: rp})
@@ -193,8 +193,29 @@ func cmdWorker(byID map[string]Engine, args []string) int {
 	return 0
 }
 
-// BuildReplay narrows, shrinks and records a violation.
-func BuildReplay(e Engine, plan interface{}, v *Verdict, seed, run uint64) *Replay {
+// History names the earlier runs of the same worker process that a violation needs: state that outlives
+// a run (a package-level cache in the code under test) makes a run's outcome depend on the runs before it.
+type History struct {
+	Tier string   `json:"tier"`
+	Runs []uint64 `json:"runs"` // run indices executed, in this order, in the same process before the plan
+}
+
+// freshExecute runs the plan (after the given history) in a new process of this binary.
+func freshExecute(e Engine, plan interface{}, seed uint64, h *History, c *Ctx) (*Verdict, bool) {
+	bin, err := os.Executable()
+	if err != nil {
+		return nil, false
+	}
+	v, err := remoteExecute(bin, e.ID(), plan, seed, h, "replay", c)
+	if err != nil {
+		return nil, false
+	}
+	return v, true
+}
+
+// BuildReplay narrows, shrinks and records a violation. The shrunk plan is confirmed in a fresh process;
+// if it only fails after the earlier runs of this worker, the replay file records that history.
+func BuildReplay(e Engine, plan interface{}, v *Verdict, seed, run uint64, tier string, w, W uint64) *Replay {
 	orig := PlanJSON(plan)
 	cur := plan
 	clause := v.Clause
@@ -204,7 +225,7 @@ func BuildReplay(e Engine, plan interface{}, v *Verdict, seed, run uint64) *Repl
 			cur = v.Narrow
 		}
 	}
-	shrunk, steps := Shrink(e, cur, clause, 400)
+	shrunk, steps := Shrink(e, cur, clause, 400, nil)
 	c := &Ctx{Stats: NewStats(), Log: NewLog(true), Tier: "replay"}
 	vf := SafeExecute(e, Clone(e, shrunk), c)
 	if vf == nil || vf.Clause != clause {
@@ -216,8 +237,55 @@ func BuildReplay(e Engine, plan interface{}, v *Verdict, seed, run uint64) *Repl
 			vf = v
 		}
 	}
-	return &Replay{Property: e.ID(), Engine: e.Title(), Seed: seed, Run: run, Clause: vf.Clause,
+	rp := &Replay{Property: e.ID(), Engine: e.Title(), Seed: seed, Run: run, Clause: vf.Clause,
 		Detail: vf.Detail, LogHash: c.Log.Sum(), Shrunk: steps, Plan: PlanJSON(shrunk), Original: orig, Trace: c.Log.Text}
+	if os.Getenv("AGESIM_NO_FRESH_CONFIRM") != "" {
+		return rp
+	}
+	// does it fail in a process that has done nothing else?
+	fc := &Ctx{Stats: NewStats(), Log: NewLog(true), Tier: "replay"}
+	if fv, ok := freshExecute(e, shrunk, seed, nil, fc); !ok || (fv != nil && fv.Clause == clause) {
+		return rp
+	}
+	// the shrunk plan needs what this process did before. The original plan alone?
+	fc = &Ctx{Stats: NewStats(), Log: NewLog(true), Tier: "replay"}
+	if fv, _ := freshExecute(e, plan, seed, nil, fc); fv != nil && fv.Clause == clause {
+		fresh := func(cand interface{}) *Verdict {
+			cc := &Ctx{Stats: NewStats(), Log: NewLog(false), Tier: "shrink"}
+			r, _ := freshExecute(e, cand, seed, nil, cc)
+			return r
+		}
+		shrunk, steps = Shrink(e, plan, clause, 120, fresh)
+		fc = &Ctx{Stats: NewStats(), Log: NewLog(true), Tier: "replay"}
+		if fv, _ := freshExecute(e, shrunk, seed, nil, fc); fv != nil && fv.Clause == clause {
+			rp.Clause, rp.Detail, rp.LogHash, rp.Shrunk, rp.Plan, rp.Trace = fv.Clause, fv.Detail, fc.Log.Sum(), steps, PlanJSON(shrunk), fc.Log.Text
+			rp.Note = "shrunk in fresh processes: in the worker that found it, state left by earlier runs made smaller plans fail too"
+			return rp
+		}
+	}
+	// it takes the history of this worker process: find a short suffix of it that suffices
+	var all []uint64
+	for j := w; j < run; j += W {
+		all = append(all, j)
+	}
+	for n := 1; ; n *= 2 {
+		if n > len(all) {
+			n = len(all)
+		}
+		h := &History{Tier: tier, Runs: all[len(all)-n:]}
+		fc = &Ctx{Stats: NewStats(), Log: NewLog(true), Tier: "replay"}
+		if fv, _ := freshExecute(e, plan, seed, h, fc); fv != nil && fv.Clause == clause {
+			rp.Clause, rp.Detail, rp.LogHash, rp.Shrunk, rp.Plan, rp.Trace = fv.Clause, fv.Detail, fc.Log.Sum(), 0, orig, fc.Log.Text
+			rp.History = h
+			rp.Note = fmt.Sprintf("the violation needs state left behind by earlier runs in the same process: replay executes runs %v first", h.Runs)
+			return rp
+		}
+		if n == len(all) {
+			break
+		}
+	}
+	rp.Note = "NOT reproduced in a fresh process, neither alone nor after the earlier runs of the worker that found it"
+	return rp
 }
 
 // ---------- replay ----------
@@ -246,6 +314,10 @@ func cmdReplay(byID map[string]Engine, args []string) int {
 		fmt.Fprintln(os.Stderr, err)
 		return 2
 	}
+	if rp.Note != "" {
+		fmt.Println("replay: note:", rp.Note)
+	}
+	runHistory(e, rp.Seed, rp.History)
 	c := &Ctx{Stats: NewStats(), Log: NewLog(true), Tier: "replay"}
 	v := SafeExecute(e, p, c)
 	for _, l := range c.Log.Text {
@@ -623,6 +695,9 @@ type ExecResult struct {
 func cmdExecPlan(byID map[string]Engine, args []string) int {
 	fs := flag.NewFlagSet("execplan", flag.ExitOnError)
 	prop := fs.String("prop", "", "")
+	tier := fs.String("tier", "exec", "")
+	seed := fs.Uint64("seed", 0, "")
+	hist := fs.String("history", "", "JSON History: runs to execute first in this process")
 	fs.Parse(args)
 	e := byID[*prop]
 	if e == nil {
@@ -633,7 +708,15 @@ func cmdExecPlan(byID map[string]Engine, args []string) int {
 		fmt.Fprintln(os.Stderr, err)
 		return 2
 	}
-	c := &Ctx{Stats: NewStats(), Log: NewLog(true), Tier: "exec"}
+	if *hist != "" {
+		var h History
+		if err := json.Unmarshal([]byte(*hist), &h); err != nil {
+			fmt.Fprintln(os.Stderr, err)
+			return 2
+		}
+		runHistory(e, *seed, &h)
+	}
+	c := &Ctx{Stats: NewStats(), Log: NewLog(true), Tier: *tier}
 	v := SafeExecute(e, p, c)
 	r := ExecResult{LogHash: c.Log.Sum(), Trace: c.Log.Text, C: c.Stats.C}
 	for k := range c.Stats.Sigs {
@@ -648,7 +731,27 @@ func cmdExecPlan(byID map[string]Engine, args []string) int {
 
 // RemoteExecute runs a plan in another binary (execplan) and merges its statistics.
 func RemoteExecute(bin, prop string, plan interface{}, c *Ctx) (*Verdict, error) {
-	cmd := exec.Command(bin, "execplan", "-prop", prop)
+	return remoteExecute(bin, prop, plan, 0, nil, "exec", c)
+}
+
+// runHistory re-executes earlier runs (regenerated from the seed) in this process; their verdicts are not judged.
+func runHistory(e Engine, seed uint64, h *History) {
+	if h == nil {
+		return
+	}
+	for _, j := range h.Runs {
+		plan := e.Generate(NewRNG(RunSeed(seed, e.ID(), j)), h.Tier, j)
+		SafeExecute(e, plan, &Ctx{Stats: NewStats(), Log: NewLog(false), Tier: h.Tier})
+	}
+}
+
+func remoteExecute(bin, prop string, plan interface{}, seed uint64, h *History, tier string, c *Ctx) (*Verdict, error) {
+	args := []string{"execplan", "-prop", prop, "-tier", tier}
+	if h != nil {
+		hb, _ := json.Marshal(h)
+		args = append(args, "-seed", fmt.Sprint(seed), "-history", string(hb))
+	}
+	cmd := exec.Command(bin, args...)
 	cmd.Stdin = strings.NewReader(string(PlanJSON(plan)))
 	cmd.Stderr = os.Stderr
 	var outBuf strings.Builder
